@@ -21,6 +21,7 @@ import (
 	"encoding/json"
 	"reflect"
 	"sync"
+	"time"
 
 	corev1 "k8s.io/api/core/v1"
 	"k8s.io/apimachinery/pkg/types"
@@ -100,6 +101,9 @@ func NewSLOCfgHandlerForConfigMapEvent(client client.Client, initCfg SLOCfg, rec
 func (p *SLOCfgHandlerForConfigMapEvent) triggerAllNodeEnqueue(q workqueue.TypedRateLimitingInterface[reconcile.Request]) {
 	nodeList := &corev1.NodeList{}
 	if err := p.Client.List(context.TODO(), nodeList); err != nil {
+		// the cache has already been replaced: the fan-out must not be lost
+		klog.Errorf("failed to list nodes for the NodeSLO config change, retry later, err: %s", err)
+		time.AfterFunc(time.Second, func() { p.triggerAllNodeEnqueue(q) })
 		return
 	}
 	for _, node := range nodeList.Items {
